@@ -418,6 +418,7 @@ var unsupported = map[string]map[string]string{
 }
 
 const (
+	classK9 = "K9 dbrp statement whose database or retention policy name contains a double quote (printed unescaped)"
 	classJ2 = "J2 pipeline JSON does not carry the property: "
 	classT2 = "T2 pipeline/tick does not render the property: "
 )
@@ -1224,7 +1225,13 @@ func genScript(r *kit.Rec, t *rapid.T, law string) ScriptCase {
 	s.edge = rapid.SampledFrom([]string{"stream", "stream", "batch"}).Draw(t, "edge")
 	if rapid.IntRange(0, 9).Draw(t, "dbrp") == 0 {
 		s.o.emit(tk{s: "dbrp", cls: "var"})
-		s.o.emit(tk{s: encRef(rapid.SampledFrom([]string{"telegraf", "my db", "d.b", `q"db`}).Draw(t, "dbrpDB")), cls: "lit-reference"})
+		db := rapid.SampledFrom([]string{"telegraf", "my db", "d.b", `q"db`}).Draw(t, "dbrpDB")
+		if strings.Contains(db, `"`) {
+			// K9: the formatter does not escape a double quote in a dbrp statement
+			r.Exclude(classK9)
+			db = "qdb"
+		}
+		s.o.emit(tk{s: encRef(db), cls: "lit-reference"})
 		s.o.emit(tk{s: ".", cls: "dot"})
 		s.o.emit(tk{s: encRef(rapid.SampledFrom([]string{"autogen", "rp one"}).Draw(t, "dbrpRP")), cls: "lit-reference"})
 		s.o.label("stmt:dbrp")
